@@ -663,6 +663,15 @@ def flows_into(body, local):
     for bi, si, s in body.assigns():
         if s["p"]["l"] == local and "p" in s["p"]:
             out.append(body.term_rvalue(s["rv"]))
+    # any call that receives `&mut local` may write its other arguments into it (e.g. record.encode(&mut buf))
+    for bi, t, path in body.calls():
+        if not t["a"] or len(t["a"]) < 2:
+            continue
+        args = [body.term_operand(a) for a in t["a"]]
+        if any(a[0] == "var" and len(a) > 2 and a[2] == local for a in args):
+            for a in args:
+                if not (a[0] == "var" and len(a) > 2 and a[2] == local):
+                    out.append(a)
     return out
 
 
